@@ -185,7 +185,14 @@ pub fn random_arrival(rng: &mut Rng, period: u64, sw: &ArrSwarm) -> ArrDesc {
     }
     if sw.allow_user && rng.chance(1, 30) {
         let k = rng.range(1, 3);
-        let user = ArrDesc::User(period * k, k);
+        let t = period * k;
+        // half of them with a second burst shortly after the first (steps at nearby lengths)
+        let g = match rng.below(4) {
+            0 | 1 => 0,
+            2 => 1,
+            _ => rng.range(1, (t / 2).max(1)),
+        };
+        let user = ArrDesc::User(if g > 0 { 2 * t } else { t }, k, g.min(t));
         return match rng.below(5) {
             0 | 1 => user,
             2 => ArrDesc::Jittered(Box::new(user), rng.range(0, period)),
